@@ -3,6 +3,7 @@ package main
 import (
 	"fmt"
 	"go/token"
+	"sort"
 	"strings"
 
 	"golang.org/x/tools/go/ssa"
@@ -19,7 +20,7 @@ func runC15(c *Ctx) {
 	c.Rule("C15.DOLLAR", "COVER: dollarQuoteTag admits digits in a tag, except as its first character")
 	c.Rule("C15.EXACT", "FLOW: every StringMask.Original is a slice of the sql parameter, and the de-duplication map of quoted identifiers is keyed by that same value")
 	c.Rule("C15.PLACEHOLDER", "FLOW: placeholders are formatted from a counter that is incremented with every mask appended, and input text that already has placeholder shape is itself masked")
-	c.Rule("C15.UNMASK", "FLOW: UnmaskStringLiterals replaces each mask's Placeholder by that same mask's Original")
+	c.Rule("C15.UNMASK", "FLOW: UnmaskStringLiterals replaces each mask's Placeholder by that same mask's Original, in a single pass that never rescans restored text")
 	c.Rule("C15.COMMENT", "ORDER: in stripSQLComments the search for the closing */ starts two bytes after the opener, and the rest of the input is dropped only where no closing marker was found")
 
 	mk := c.MustFunc("C15.BACKSLASH", "internal/sql.MaskStringLiterals")
@@ -88,6 +89,105 @@ func runC15(c *Ctx) {
 			}
 		}
 		c.Check(ok, "C15.BACKSLASH", "scanQuoted|escape-pair-consumed", sq.Pos(), "in an E-string a backslash and the byte after it are skipped together", "scanQuoted does not consume a backslash together with the byte it escapes")
+	}
+
+	// ---- SCAN: the feature scan is stateless
+	c.Rule("C15.SCAN", "FLOW: scanSQLFeatures — which decides whether masking and comment stripping run at all — is stateless: every branch condition depends only on the bytes at the current position, the length, the position itself and the flags already set, never on a loop-carried scanner state (a second, cheaper lexer that tries to skip quoted text must agree with the masker on E-strings and dollar quotes, and where it does not a comment DuckDB sees is never stripped); and the marker bytes ', \", $, -, /, * are all among the constants it compares with")
+	if fn := c.MustFunc("C15.SCAN", "internal/api.scanSQLFeatures"); fn != nil {
+		isHeaderPhi := func(ph *ssa.Phi) bool {
+			for _, pr := range ph.Block().Preds {
+				if ph.Block().Dominates(pr) {
+					return true
+				}
+			}
+			return false
+		}
+		isIndexPhi := func(ph *ssa.Phi) bool {
+			for _, e := range ph.Edges {
+				if bo, ok := e.(*ssa.BinOp); ok && bo.Op == token.ADD && bo.X == ssa.Value(ph) {
+					if _, ok := constInt(bo.Y); ok {
+						return true
+					}
+				}
+			}
+			return false
+		}
+		var stateful []string
+		nIf := 0
+		consts := map[int64]bool{}
+		for _, in := range instrs(fn, false) {
+			if bo, ok := in.(*ssa.BinOp); ok {
+				if k, ok := constInt(bo.Y); ok {
+					consts[k] = true
+				}
+			}
+			ifi, ok := in.(*ssa.If)
+			if !ok {
+				continue
+			}
+			nIf++
+			seen := map[ssa.Value]bool{}
+			var rec func(v ssa.Value, d int)
+			rec = func(v ssa.Value, d int) {
+				if v == nil || seen[v] || d > 30 {
+					return
+				}
+				seen[v] = true
+				switch x := v.(type) {
+				case *ssa.Phi:
+					if isHeaderPhi(x) && !isIndexPhi(x) {
+						name := x.Comment
+						if name == "" {
+							name = x.Name()
+						}
+						stateful = append(stateful, fmt.Sprintf("%s (line %d)", name, p.Line(ifi.Cond.Pos())))
+						return
+					}
+					for _, e := range x.Edges {
+						rec(e, d+1)
+					}
+				case *ssa.BinOp:
+					rec(x.X, d+1)
+					rec(x.Y, d+1)
+				case *ssa.UnOp:
+					if x.Op == token.MUL {
+						// a load: of a flag field of the local result struct is fine; of any other cell is state
+						if fa, ok := x.X.(*ssa.FieldAddr); ok {
+							if _, ok := fa.X.(*ssa.Alloc); ok && strings.HasSuffix(fa.X.Type().String(), "sqlFeatures") {
+								return
+							}
+						}
+						if a, ok := x.X.(*ssa.Alloc); ok {
+							stateful = append(stateful, fmt.Sprintf("cell %s (line %d)", a.Comment, p.Line(ifi.Cond.Pos())))
+							return
+						}
+					}
+					rec(x.X, d+1)
+				case *ssa.Lookup:
+					rec(x.X, d+1)
+					rec(x.Index, d+1)
+				case *ssa.Index:
+					rec(x.X, d+1)
+					rec(x.Index, d+1)
+				case *ssa.Convert:
+					rec(x.X, d+1)
+				case *ssa.Call:
+					for _, a := range x.Call.Args {
+						rec(a, d+1)
+					}
+				}
+			}
+			rec(ifi.Cond, 0)
+		}
+		sort.Strings(stateful)
+		c.Check(len(stateful) == 0 && nIf >= 3, "C15.SCAN", "scanSQLFeatures|stateless", fn.Pos(), fmt.Sprintf("%d branch conditions, all functions of the current bytes, position and flags", nIf), "scanSQLFeatures branches on scanner state carried between positions ("+strings.Join(stateful, ", ")+"): it skips text it believes to be quoted, but the masker ends E'…\\'…' and $tag$…'…$tag$ elsewhere — after such a literal the scan never sees a following comment, reports `no comments`, and the comment DuckDB ignores stays in the text that validation, the permission check and the rewriter read")
+		var missing []string
+		for _, k := range []int64{'\'', '"', '$', '-', '/', '*'} {
+			if !consts[k] {
+				missing = append(missing, fmt.Sprintf("%q", rune(k)))
+			}
+		}
+		c.Check(len(missing) == 0, "C15.SCAN", "scanSQLFeatures|marker-bytes", fn.Pos(), "all six marker bytes are compared", "scanSQLFeatures never compares with "+strings.Join(missing, ", ")+": text opened by that byte is not masked / not stripped")
 	}
 
 	// ---- DOLLAR
@@ -213,18 +313,43 @@ func runC15(c *Ctx) {
 
 	// ---- UNMASK
 	if um := c.MustFunc("C15.UNMASK", "internal/sql.UnmaskStringLiterals"); um != nil {
-		n := 0
+		// (a) single pass: no strings.Replace/ReplaceAll applied repeatedly (in a loop) to the text being restored
+		nLoopRepl := 0
 		for _, call := range callsIn(um, false) {
 			cn := callName(call)
-			if cn != "strings.Replace" && cn != "strings.ReplaceAll" {
-				continue
+			if (cn == "strings.Replace" || cn == "strings.ReplaceAll") && blockInCycle(call.Block()) {
+				nLoopRepl++
 			}
-			n++
-			a := call.Common().Args
-			fo, fn2 := fieldSources(a[1], 4), fieldSources(a[2], 4)
-			c.Check(fo["StringMask.Placeholder"] && fn2["StringMask.Original"] && !fn2["StringMask.Placeholder"], "C15.UNMASK", fmt.Sprintf("UnmaskStringLiterals|replace#%d", n), call.Pos(), "placeholder -> original of the same mask", "UnmaskStringLiterals does not replace a mask's placeholder by its recorded original")
 		}
-		if n == 0 {
+		c.Check(nLoopRepl == 0, "C15.UNMASK", "UnmaskStringLiterals|single-pass", um.Pos(), "placeholders are restored in one pass (no replace-in-a-loop over already restored text)", "UnmaskStringLiterals restores the placeholders one after the other with strings.Replace: each step rescans what earlier steps put back, so a literal whose body has placeholder shape ('__IDENT_1__') gets a later mask's original spliced into it — and an identifier's original may contain a quote, which turns the rest of it into live SQL that no validator or permission check saw (a tenant-only caller read another database's file this way)")
+		// (b) the pairs handed to the replacer are (Placeholder, Original) of the same mask
+		nRepl := 0
+		for _, call := range callsIn(um, false) {
+			cn := callName(call)
+			switch cn {
+			case "strings.NewReplacer":
+				nRepl++
+				fs := fieldSources(call.Common().Args[0], 12)
+				c.Check(fs["StringMask.Placeholder"] && fs["StringMask.Original"], "C15.UNMASK", "UnmaskStringLiterals|pairs", call.Pos(), "replacer pairs are built from each mask's Placeholder and Original", "the replacer's pairs are not built from the masks' Placeholder and Original fields")
+				// order inside a pair: in the append that builds the pairs, Placeholder comes first
+				for _, ap := range callsIn(um, false) {
+					if b, ok := ap.Common().Value.(*ssa.Builtin); !ok || b.Name() != "append" {
+						continue
+					}
+					vals := bindArgs(ap)
+					if len(vals) == 2 && vals[0] != nil && vals[1] != nil {
+						f0, f1 := fieldSources(vals[0], 4), fieldSources(vals[1], 4)
+						c.Check(f0["StringMask.Placeholder"] && f1["StringMask.Original"] && !f1["StringMask.Placeholder"], "C15.UNMASK", "UnmaskStringLiterals|pair-order", ap.Pos(), "placeholder first, original second", "a pair is not (placeholder, original) of one mask")
+					}
+				}
+			case "strings.Replace", "strings.ReplaceAll":
+				nRepl++
+				a := call.Common().Args
+				fo, fn2 := fieldSources(a[1], 4), fieldSources(a[2], 4)
+				c.Check(fo["StringMask.Placeholder"] && fn2["StringMask.Original"] && !fn2["StringMask.Placeholder"], "C15.UNMASK", fmt.Sprintf("UnmaskStringLiterals|replace#%d", nRepl), call.Pos(), "placeholder -> original of the same mask", "UnmaskStringLiterals does not replace a mask's placeholder by its recorded original")
+			}
+		}
+		if nRepl == 0 {
 			c.Unk("C15.UNMASK", "UnmaskStringLiterals|replace", um.Pos(), "no replacement found")
 		}
 	}
